@@ -4,6 +4,7 @@
 //! property's oracle: opens, head is old/new/ancestor, full validation passes, re-delivery
 //! reaches the uninterrupted state.
 use grin_chain::Chain;
+use grin_core::core::hash::Hashed;
 use grin_core::core::{Block, BlockHeader};
 use grin_core::ser::{self, DeserializationMode, ProtocolVersion};
 use grin_store::verif_hooks;
@@ -48,7 +49,7 @@ fn cls<T>(r: Result<T, grin_chain::Error>, ok: &str) -> String {
 /// head = header head), `orphans` (blocks = parent, child: the child is delivered first and parked
 /// in the orphan pool, the parent's acceptance then triggers check_orphans = two acceptances in one
 /// call), `compact` (Chain::compact), `reset` (Chain::reset_chain_head(block, true))
-fn do_input(chain: &Chain, kind: &str, blocks: &[Block]) -> String {
+fn do_input(chain: &Chain, kind: &str, blocks: &[Block], aux: &str) -> String {
 	let opts = grin_chain::Options::SKIP_POW;
 	match kind {
 		"block" => match chain.process_block(blocks[0].clone(), opts) {
@@ -73,6 +74,19 @@ fn do_input(chain: &Chain, kind: &str, blocks: &[Block]) -> String {
 			if any_ok { "ok".into() } else { format!("{}", r1) }
 		}
 		"compact" => cls(chain.compact(), "ok"),
+		// state sync install: `aux` = path of the zip a source node produced with txhashset_read for
+		// the archive header blocks[0]
+		"zip" => match std::fs::File::open(aux) {
+			Ok(f) => {
+				let status = grin_chain::types::SyncState::new();
+				match chain.txhashset_write(blocks[0].header.hash(), f, &status) {
+					Ok(false) => "ok".into(),
+					Ok(true) => "ban".into(),
+					Err(e) => format!("err:{}", error_class(&e)),
+				}
+			}
+			Err(_) => "err:no-zip".into(),
+		},
 		"reset" => cls(chain.reset_chain_head(grin_chain::Tip::from_header(&blocks[0].header), true), "ok"),
 		_ => "err:unknown-kind".into(),
 	}
@@ -94,8 +108,9 @@ fn child(args: &[String]) {
 		Ok(c) => c,
 		Err(_) => std::process::exit(3),
 	};
+	let aux = if args.len() > 5 { args[5].clone() } else { String::new() };
 	verif_hooks::arm(n);
-	let _ = do_input(&chain, kind, &blocks);
+	let _ = do_input(&chain, kind, &blocks, &aux);
 	verif_hooks::arm(0);
 	std::process::exit(0);
 }
@@ -166,10 +181,17 @@ struct Scenario {
 	followup: Vec<(&'static str, usize)>,
 	/// quick tier: enumerate second process deaths during the restart (thorough: every scenario)
 	second: bool,
+	/// the chain directory inside the scenario directory ("" = the directory itself; the state sync
+	/// sandbox lives next to the chain directory)
+	sub: &'static str,
+	/// blocks delivered after `compact_pre` (a node that goes on after a compaction)
+	pre2: Vec<usize>,
+	/// thorough tier only
+	thorough_only: bool,
 }
 
 fn sc(name: &'static str, pre: &[usize], kind: &'static str, input: &[usize]) -> Scenario {
-	Scenario { name, pre: pre.to_vec(), pre_headers: vec![], compact_pre: false, kind, input: input.to_vec(), followup: vec![], second: false }
+	Scenario { name, pre: pre.to_vec(), pre_headers: vec![], compact_pre: false, kind, input: input.to_vec(), followup: vec![], second: false, sub: "", pre2: vec![], thorough_only: false }
 }
 
 /// LMDB commits carry no file name: qualify them by the last file step before them
@@ -185,6 +207,14 @@ fn qualify(raw_labels: Vec<String>) -> Vec<String> {
 		}
 	}
 	labels
+}
+
+/// false for the crash points between which the process has written nothing
+fn state_distinct(label: &str) -> bool {
+	!(label.starts_with("aof.flush:before-truncate")
+		|| label.starts_with("aof.flush:before-append")
+		|| label.starts_with("aof.flush:after-sync")
+		|| label.starts_with("lmdb:before-commit"))
 }
 
 /// a crash point after which the durable state differs from the state at the previous point
@@ -205,6 +235,35 @@ struct Ctx<'a> {
 	new_: Snap,
 	ref_followup: Vec<String>,
 	ref_after_followup: (String, String),
+	aux: String,
+	/// the MMR files of the uninterrupted node after the input and the follow-ups
+	ref_files: std::collections::BTreeMap<String, Vec<u8>>,
+}
+
+/// every file under txhashset/ and header/ of a chain directory (the MMR files; not LMDB)
+fn mmr_files(db_root: &str) -> std::collections::BTreeMap<String, Vec<u8>> {
+	fn walk(root: &Path, p: &Path, m: &mut std::collections::BTreeMap<String, Vec<u8>>) {
+		if let Ok(rd) = std::fs::read_dir(p) {
+			for e in rd.flatten() {
+				let q = e.path();
+				if q.is_dir() {
+					walk(root, &q, m);
+				} else if let Ok(b) = std::fs::read(&q) {
+					let name = q.strip_prefix(root).unwrap().to_string_lossy().to_string();
+					// snapshots / temp copies are not part of the state
+					if name.ends_with(".tmp") || name.contains("pmmr_leaf.bin.") {
+						continue;
+					}
+					m.insert(name, b);
+				}
+			}
+		}
+	}
+	let mut m = std::collections::BTreeMap::new();
+	let root = Path::new(db_root);
+	walk(root, &root.join("txhashset"), &mut m);
+	walk(root, &root.join("header"), &mut m);
+	m
 }
 
 struct Eval {
@@ -217,7 +276,8 @@ struct Eval {
 fn evaluate(cx: &Ctx, dir: &str) -> Eval {
 	let kit = cx.kit;
 	let gen = kit.genesis.clone();
-	let dir2 = dir.to_string();
+	let dir2 = format!("{}{}", dir, cx.sc.sub);
+	let db_root = dir2.clone();
 	verif_hooks::start_log();
 	let opened = catch(move || init_chain(&dir2, gen));
 	let rec_labels = qualify(verif_hooks::take_log());
@@ -234,7 +294,7 @@ fn evaluate(cx: &Ctx, dir: &str) -> Eval {
 			};
 			// index consistency: what the node reports as unspent = replay of its head's path
 			// (checked by the model from the utxo list); then re-deliver the interrupted input
-			let redo = match catch(std::panic::AssertUnwindSafe(|| do_input(&c, cx.sc.kind, &cx.input_blocks))) {
+			let redo = match catch(std::panic::AssertUnwindSafe(|| do_input(&c, cx.sc.kind, &cx.input_blocks, &cx.aux))) {
 				Ok(r) => r,
 				Err(_) => "panic".into(),
 			};
@@ -245,7 +305,7 @@ fn evaluate(cx: &Ctx, dir: &str) -> Eval {
 				.iter()
 				.map(|(k, f)| {
 					let b = [kit.blks[*f].block.clone()];
-					catch(std::panic::AssertUnwindSafe(|| do_input(&c, k, &b))).unwrap_or("panic".into())
+					catch(std::panic::AssertUnwindSafe(|| do_input(&c, k, &b, ""))).unwrap_or("panic".into())
 				})
 				.collect();
 			let fu_same = fu == cx.ref_followup;
@@ -258,13 +318,36 @@ fn evaluate(cx: &Ctx, dir: &str) -> Eval {
 				&& after.utxo == new_.utxo
 				&& fu_same && fu_state_same;
 			let u: Vec<String> = s.utxo.iter().map(|i| format!("o{}", i)).collect();
+			// byte-level oracle: a node that ends in the uninterrupted logical state must hold the
+			// uninterrupted node's MMR files, byte for byte
+			let files = if same {
+				drop(c);
+				let mine = mmr_files(&db_root);
+				let mut bad = vec![];
+				for (k, v) in &cx.ref_files {
+					match mine.get(k) {
+						None => bad.push(format!("{}:missing", k)),
+						Some(w) if w != v => bad.push(format!("{}:{}vs{}", k, w.len(), v.len())),
+						_ => {}
+					}
+				}
+				for k in mine.keys() {
+					if !cx.ref_files.contains_key(k) {
+						bad.push(format!("{}:extra", k));
+					}
+				}
+				if bad.is_empty() { "same".to_string() } else { format!("differ({})", bad.join(";")) }
+			} else {
+				"-".to_string()
+			};
 			format!(
-				"open=ok head={} head_allowed={} validate={} utxo=[{}] redeliver={} final={}",
+				"open=ok head={} head_allowed={} validate={} utxo=[{}] redeliver={} files={} final={}",
 				s.head,
 				head_ok,
 				val,
 				u.join(","),
 				redo.split(':').next().unwrap_or(""),
+				files,
 				if same {
 					"same".to_string()
 				} else {
@@ -284,6 +367,7 @@ fn evaluate(cx: &Ctx, dir: &str) -> Eval {
 	let good = verdict.starts_with("open=ok")
 		&& verdict.contains("head_allowed=true")
 		&& verdict.contains("validate=ok")
+		&& verdict.contains("files=same")
 		&& verdict.contains("final=same");
 	Eval { verdict, good, rec_labels }
 }
@@ -292,7 +376,7 @@ fn evaluate(cx: &Ctx, dir: &str) -> Eval {
 fn verdict_class(v: &str) -> String {
 	let mut keep = vec![];
 	for t in v.split(' ') {
-		if t.starts_with("open=") || t.starts_with("head=") || t.starts_with("head_allowed=") || t.starts_with("validate=") || t.starts_with("utxo=") || t.starts_with("redeliver=") {
+		if t.starts_with("open=") || t.starts_with("head=") || t.starts_with("head_allowed=") || t.starts_with("validate=") || t.starts_with("utxo=") || t.starts_with("redeliver=") || t.starts_with("files=same") {
 			keep.push(t.to_string());
 		} else if t.starts_with("final=") {
 			keep.push(if t == "final=same" { "final=same".to_string() } else { "final=differs".to_string() });
@@ -308,6 +392,7 @@ fn outcome_class(v: &str) -> String {
 
 #[derive(Default)]
 struct Tot {
+	skipped: u64,
 	points: u64,
 	failing: u64,
 	second_classes: u64,
@@ -321,8 +406,10 @@ fn run_scenario(kit: &Kit, sc: &Scenario, work: &str, exe: &Path, gen_path: &str
 	let mut tot = Tot::default();
 	// ---- base state ----
 	let base = format!("{}/{}-base", work, sc.name);
+	let aux = format!("{}/blocks/archive.zip", work);
 	{
-		let c = init_chain(&base, kit.genesis.clone()).unwrap();
+		std::fs::create_dir_all(format!("{}{}", base, sc.sub)).unwrap();
+		let c = init_chain(&format!("{}{}", base, sc.sub), kit.genesis.clone()).unwrap();
 		for i in &sc.pre {
 			c.process_block(kit.blks[*i].block.clone(), grin_chain::Options::SKIP_POW).unwrap();
 		}
@@ -332,6 +419,9 @@ fn run_scenario(kit: &Kit, sc: &Scenario, work: &str, exe: &Path, gen_path: &str
 		}
 		if sc.compact_pre {
 			c.compact().unwrap();
+		}
+		for i in &sc.pre2 {
+			c.process_block(kit.blks[*i].block.clone(), grin_chain::Options::SKIP_POW).unwrap();
 		}
 	}
 	let input_blocks: Vec<Block> = sc.input.iter().map(|i| kit.blks[*i].block.clone()).collect();
@@ -343,17 +433,32 @@ fn run_scenario(kit: &Kit, sc: &Scenario, work: &str, exe: &Path, gen_path: &str
 	// ---- reference: uninterrupted, with the step log ----
 	let refdir = format!("{}/{}-ref", work, sc.name);
 	copy_dir(Path::new(&base), Path::new(&refdir));
-	let (old, new_, labels, res, ref_followup, ref_after_followup) = {
-		let c = init_chain(&refdir, kit.genesis.clone()).unwrap();
+	let (old, new_, mut labels, res, ref_followup, ref_after_followup) = {
+		let c = init_chain(&format!("{}{}", refdir, sc.sub), kit.genesis.clone()).unwrap();
 		let old = snap(&c, kit);
 		verif_hooks::start_log();
-		let res = do_input(&c, sc.kind, &input_blocks);
+		let res = do_input(&c, sc.kind, &input_blocks, &aux);
 		let labels = qualify(verif_hooks::take_log());
 		let new_ = snap(&c, kit);
-		let fu: Vec<String> = sc.followup.iter().map(|(k, f)| do_input(&c, k, &[kit.blks[*f].block.clone()])).collect();
+		let fu: Vec<String> = sc.followup.iter().map(|(k, f)| do_input(&c, k, &[kit.blks[*f].block.clone()], "")).collect();
 		let af = snap(&c, kit);
 		(old, new_, labels, res, fu, (af.head, af.hhead))
 	};
+	let ref_files = mmr_files(&format!("{}{}", refdir, sc.sub));
+	let real_steps = labels.len();
+	// state sync: `txhashset_replace` (remove the old txhashset directory, rename the sandbox over
+	// it) has no crash points of its own; its intermediate states are produced here from the state
+	// of a process killed right after the LMDB commit that precedes it
+	let zip_commit = if sc.kind == "zip" {
+		labels.iter().rposition(|l| l.starts_with("lmdb:after-commit(after:kernel/pmmr_prun.bin)")).map(|i| i + 1)
+	} else {
+		None
+	};
+	if zip_commit.is_some() {
+		for l in ["emu.replace:clean-partial[txhashset]", "emu.replace:after-clean[txhashset]", "emu.replace:after-rename[txhashset]"] {
+			labels.push(l.to_string());
+		}
+	}
 	let ids: Vec<String> = sc.input.iter().map(|i| format!("b{}", i)).collect();
 	out.push(format!(
 		"crash scenario {} kind={} input={} => {} steps={} old={} new={} oldhh={} newhh={}",
@@ -381,8 +486,31 @@ fn run_scenario(kit: &Kit, sc: &Scenario, work: &str, exe: &Path, gen_path: &str
 			}
 		}
 	}
-	let cx = Ctx { kit, sc, input_blocks, allowed, new_, ref_followup, ref_after_followup };
+	let cx = Ctx { kit, sc, input_blocks, allowed, new_, ref_followup, ref_after_followup, aux: aux.clone(), ref_files };
 	let run_child = |dir: &str, n: usize| -> i32 {
+		// emulated points: the process is killed at the commit, the directory swap is then carried
+		// out by hand up to the point named
+		let (n_real, emu) = if n > real_steps { (zip_commit.unwrap_or(real_steps), n - real_steps) } else { (n, 0) };
+		let code = Command::new(exe)
+			.args(["child", &format!("{}{}", dir, sc.sub), gen_path, sc.kind, &n_real.to_string(), &input_path, &aux])
+			.status()
+			.unwrap()
+			.code()
+			.unwrap_or(-1);
+		if emu > 0 && code == 86 {
+			let ts = format!("{}{}/txhashset", dir, sc.sub);
+			if emu == 1 {
+				let _ = std::fs::remove_dir_all(format!("{}/output", ts));
+				let _ = std::fs::remove_file(format!("{}/kernel/pmmr_data.bin", ts));
+			} else {
+				let _ = std::fs::remove_dir_all(&ts);
+			}
+			if emu == 3 {
+				let _ = std::fs::rename(format!("{}/tmp/txhashset", dir), &ts);
+			}
+		}
+		return code;
+		#[allow(unreachable_code)]
 		Command::new(exe)
 			.args(["child", dir, gen_path, sc.kind, &n.to_string(), &input_path])
 			.status()
@@ -393,6 +521,13 @@ fn run_scenario(kit: &Kit, sc: &Scenario, work: &str, exe: &Path, gen_path: &str
 	let mut seen_classes: std::collections::HashSet<String> = std::collections::HashSet::new();
 	// ---- every crash point ----
 	for n in 1..=labels.len() {
+		// quick tier: a crash point whose durable state is that of the previous point (before a
+		// truncate / append / commit, after an fsync: nothing was written in between) is taken one
+		// time in four (seed-dependent); thorough tier: every point
+		if !thorough && !state_distinct(&labels[n - 1]) && (n as u64 + seed) % 4 != 0 {
+			tot.skipped += 1;
+			continue;
+		}
 		tot.points += 1;
 		let dir = format!("{}/{}-c{}", work, sc.name, n);
 		copy_dir(Path::new(&base), Path::new(&dir));
@@ -438,8 +573,8 @@ fn run_scenario(kit: &Kit, sc: &Scenario, work: &str, exe: &Path, gen_path: &str
 		let ms: Vec<usize> = (1..=ev.rec_labels.len())
 			.filter(|m| thorough || state_changing(&ev.rec_labels[*m - 1]))
 			.collect();
-		// at most 6 (quick) / 48 (thorough) second crash points per class, a seed-dependent selection
-		let cap = if thorough { 48 } else { 6 };
+		// at most 4 (quick) / 48 (thorough) second crash points per class, a seed-dependent selection
+		let cap = if thorough { 48 } else { 4 };
 		let ms: Vec<usize> = if ms.len() <= cap {
 			ms
 		} else {
@@ -452,7 +587,7 @@ fn run_scenario(kit: &Kit, sc: &Scenario, work: &str, exe: &Path, gen_path: &str
 			let dir = format!("{}/{}-x{}-r{}", work, sc.name, n, m);
 			copy_dir(Path::new(&crashed), Path::new(&dir));
 			let code = Command::new(exe)
-				.args(["reopen", &dir, gen_path, &m.to_string()])
+				.args(["reopen", &format!("{}{}", dir, sc.sub), gen_path, &m.to_string()])
 				.status()
 				.unwrap()
 				.code()
@@ -508,8 +643,8 @@ fn run_scenario(kit: &Kit, sc: &Scenario, work: &str, exe: &Path, gen_path: &str
 	let _ = std::fs::remove_dir_all(&base);
 	let _ = std::fs::remove_dir_all(&refdir);
 	out.push(format!(
-		"#STAT scenario={} kind={} steps={} failing={} recovery_classes={} second_crash_points={} second_failing={} second_differs={}",
-		sc.name, sc.kind, tot.points, tot.failing, tot.second_classes, tot.second_points, tot.second_failing, tot.second_differs
+		"#STAT scenario={} kind={} steps={} enumerated={} skipped_same_state={} failing={} recovery_classes={} second_crash_points={} second_failing={} second_differs={}",
+		sc.name, sc.kind, labels.len(), tot.points, tot.skipped, tot.failing, tot.second_classes, tot.second_points, tot.second_failing, tot.second_differs
 	));
 	(out, tot)
 }
@@ -608,6 +743,21 @@ fn main() {
 	// a light two-block fork three blocks below the tip: a header batch that does not win
 	let light_a = kit.new_block(trunk[n - 3], 1, &[]).ok();
 	let light_b = light_a.and_then(|e| kit.new_block(e, 1, &[]).ok());
+	// sixty coinbase-only blocks on top of the trunk: a node that is compacted at the trunk's tip,
+	// goes on and is compacted a second time (thorough tier)
+	let mut ext: Vec<usize> = vec![];
+	if long && thorough {
+		let mut t = tip;
+		for _ in 0..60 {
+			match kit.new_block(t, 2, &[]) {
+				Ok(id) => {
+					t = id;
+					ext.push(id);
+				}
+				Err(_) => break,
+			}
+		}
+	}
 	std::fs::create_dir_all(format!("{}/blocks", work)).unwrap();
 	let gen_path = format!("{}/blocks/genesis.bin", work);
 	write_block(&gen_path, &kit.genesis);
@@ -678,6 +828,40 @@ fn main() {
 	if n >= 6 {
 		scenarios.push(sc("reset-head", full, "reset", &[trunk[n - 3]]));
 	}
+	// state sync: a source node on the trunk zips its state at its archive header
+	// (Chain::txhashset_read); a fresh node that has the trunk's headers installs it
+	// (Chain::txhashset_write: sandbox, validation, LMDB commit of head + tail, directory swap), then
+	// receives the blocks above the archive header
+	if long {
+		use std::io::Read;
+		let srcdir = format!("{}/zipsrc", work);
+		let src = init_chain(&srcdir, kit.genesis.clone()).unwrap();
+		for i in full {
+			src.process_block(kit.blks[*i].block.clone(), grin_chain::Options::SKIP_POW).unwrap();
+		}
+		match src.txhashset_archive_header().and_then(|ah| src.txhashset_read(ah.hash()).map(|r| (ah, r))) {
+			Ok((ah, (_, _, mut f))) => {
+				let mut v = vec![];
+				f.read_to_end(&mut v).unwrap();
+				std::fs::write(format!("{}/blocks/archive.zip", work), &v).unwrap();
+				let a = ah.height as usize;
+				let mut s = sc("state-sync-install", &[], "zip", &[trunk[a]]);
+				s.pre_headers = full.to_vec();
+				s.sub = "/chain";
+				s.followup = trunk[a + 1..=n].iter().map(|b| ("block", *b)).collect();
+				out.raw(&format!("#STAT state-sync archive_height={} zip_bytes={}", a, v.len()));
+				scenarios.push(s);
+			}
+			Err(e) => out.raw(&format!("#STAT state-sync source failed: {}", error_class(&e))),
+		}
+	}
+	if ext.len() == 60 {
+		let mut s = sc("compaction-again", full, "compact", &[]);
+		s.compact_pre = true;
+		s.pre2 = ext.clone();
+		s.thorough_only = true;
+		scenarios.push(s);
+	}
 	if long {
 		scenarios.push(sc("compaction", full, "compact", &[]));
 		if let Some(nb) = next_blk {
@@ -690,15 +874,13 @@ fn main() {
 		s.second = [
 			"plain-extension",
 			"reorg-with-spends",
-			"reorg-coinbase-only",
-			"header-only-reorg",
-			"header-batch-reorg",
 			"reset-head",
-			"compaction",
 			"compaction-then-block",
+			"state-sync-install",
 		]
 		.contains(&s.name);
 	}
+	scenarios.retain(|s| thorough || !s.thorough_only);
 	if let Some(only) = &only {
 		scenarios.retain(|s| only.iter().any(|o| o == s.name));
 	}
@@ -711,7 +893,7 @@ fn main() {
 
 	// ---- the scenarios, several at a time, each in a forked process of its own (the crash-point
 	// counter and log of the hooks are per process); output in scenario order ----
-	let jobs: usize = std::env::var("VERIF_CRASH_JOBS").ok().and_then(|v| v.parse().ok()).unwrap_or(4).max(1);
+	let jobs: usize = std::env::var("VERIF_CRASH_JOBS").ok().and_then(|v| v.parse().ok()).unwrap_or(6).max(1);
 	let mut running: Vec<(usize, libc::pid_t)> = vec![];
 	let mut next = 0usize;
 	let mut failed_children = vec![];
